@@ -236,6 +236,15 @@ def encoder_only(rep, prog, types, hooks, model, pair_types):
 
 
 def run(rep, tier):
+    codec(rep)
+    byte_level(rep)
+    kspec.run_spec(rep, "C13", tier, budget_s=300)
+    rep.out("well-formedness checking of quick-xml on arbitrary bytes beyond the Kani harness bounds; decoding by aws-sdk; "
+            "presence patterns other than {all, none, one absent, one alone} (members are handled independently by the generated code)")
+
+
+def codec(rep, quiet=False):
+    """the symbolic part (also used by C03 for response documents): quiet=True reports deviations only, no per-type obligations"""
     rep.engines["z3"] = z3.get_version_string()
     t_all = time.time()
     prog, types = xmlabs.load()
@@ -259,7 +268,17 @@ def run(rep, tier):
         ty_problems = []
         docs = {}
         try:
-            for label, kw in configs(types, ty):
+            cfgs = list(configs(types, ty))
+            # wrapped lists (per the API model) may be empty and still be present on the wire
+            mn_ = model_names(model, types, ty) if kind == "struct" else None
+            mf_ = member_fields(model, ty) if kind == "struct" else None
+            if mn_ and mf_:
+                wrapped = set(mf_[n_].replace("_", "") for n_, k_ in mn_.items() if k_.startswith("wrapped") and n_ in mf_)
+                wfields = [f for f, fty in types.structs[ty] if f.replace("_", "") in wrapped]
+                if wfields:
+                    cfgs.append(("wrapped-lists-empty", dict(list_len=lambda p, wf=tuple(wfields): 0 if (len(p) == 1 and p[0] in wf) else 1,
+                                                             empty_ok=lambda p, wf=tuple(wfields): len(p) == 1 and p[0] in wf)))
+            for label, kw in cfgs:
                 v = Builder(types, **kw).build(ty)
                 root, e, _ = hooks.serialize_content(ty, v)
                 n_runs += 1
@@ -387,10 +406,7 @@ def run(rep, tier):
         res = rep.violation(key, what, cex, confirmed=confirm(rep, key, what, data))
         rep.obligation(key, "rsx+z3", res, 0)
     rep.solver_time += time.time() - t_all
-    byte_level(rep)
-    kspec.run_spec(rep, "C13", tier, budget_s=300)
-    rep.out("well-formedness checking of quick-xml on arbitrary bytes beyond the Kani harness bounds; decoding by aws-sdk; "
-            "presence patterns other than {all, none, one absent, one alone} (members are handled independently by the generated code)")
+    return len(seen), n_types, n_runs
 
 
 def byte_level(rep, meaning=True):
